@@ -29,8 +29,10 @@ type c05conc struct {
 	name    string
 	n       int
 	th      base.Threshold
+	unknown bool // the setup runs while the suffrage is unknown (votes are parked); it is known when the threads start
 	setup   []c05ev
 	threads [][]c05ev
+	bound   [2]int // preemption bound quick, thorough (-1 = scenario not run in that tier)
 }
 
 func (c c05conc) id() string {
@@ -65,11 +67,12 @@ func init() {
 
 func c05concBuild(c c05conc, fx *c05fx) vsched.Scenario {
 	c05resetPool()
-	sc := &c05scenario{name: c.name, n: c.n, th: c.th, known: true}
+	sc := &c05scenario{name: c.name, n: c.n, th: c.th, known: !c.unknown}
 	w := c05newWorld(sc, fx)
 	for _, e := range c.setup {
 		w.step(e, false)
 	}
+	w.known = true
 	setupViol := len(w.viol)
 	o := &c05cobs{w: w, rets: make([][]string, len(c.threads))}
 	c05concPut = func(vr *voterecords) {
@@ -146,7 +149,7 @@ func c05concBuild(c c05conc, fx *c05fx) vsched.Scenario {
 			if strings.Contains(msg, "nil pointer") || strings.Contains(msg, "invalid memory address") {
 				class = "nil-deref"
 			}
-			return fail(map[string]any{"kind": "panic", "class": class, "phase": "concurrent"}, "panic: %v\n%s", x.Panic, x.PanicStack)
+			return fail(map[string]any{"kind": "panic", "class": class, "phase": "concurrent", "site": c05panicSite(x.PanicStack)}, "panic: %v\n%s", x.Panic, x.PanicStack)
 		}
 		if x.Deadlock {
 			return fail(map[string]any{"kind": "deadlock", "phase": "concurrent"}, "deadlock: %s", strings.Join(x.Blocked, "; "))
@@ -230,6 +233,31 @@ func c05concBuild(c c05conc, fx *c05fx) vsched.Scenario {
 	return vsched.Scenario{Roots: roots, Check: check, Outcome: outcome}
 }
 
+// c05panicSite names the two innermost ballotbox.go frames of a panic stack ("callee<-caller")
+func c05panicSite(stack string) string {
+	var fr []string
+	after := false
+	for _, ln := range strings.Split(stack, "\n") {
+		if strings.HasPrefix(ln, "panic(") {
+			after = true
+			continue
+		}
+		if !after || !strings.HasPrefix(ln, "github.com/spikeekips/mitum/isaac/states.") || strings.Contains(ln, "c05") {
+			continue
+		}
+		f := strings.TrimPrefix(ln, "github.com/spikeekips/mitum/isaac/states.")
+		if i := strings.LastIndex(f, "("); i > 0 {
+			f = f[:i]
+		}
+		f = strings.NewReplacer("(*", "", ")", "").Replace(f)
+		fr = append(fr, f)
+		if len(fr) == 2 {
+			break
+		}
+	}
+	return strings.Join(fr, "<-")
+}
+
 func c05concScenarios() []c05conc {
 	P := func(h int64, r uint64, a bool) c05sp { return c05sp{h: h, r: r, accept: a} }
 	p1, p2, p3, p4, p5 := P(33, 0, false), P(33, 0, true), P(34, 0, false), P(34, 0, true), P(35, 0, false)
@@ -239,16 +267,26 @@ func c05concScenarios() []c05conc {
 	// duo suffrage, threshold 100: n0 (local) has voted everywhere in the setup, one vote of n1 completes a stage point
 	setup := []c05ev{v("n0", p1, "A", false, ""), v("n0", p1, "A", true, ""), v("n0", p2, "A", false, ""), v("n0", p3, "A", false, ""), v("n0", p4, "A", false, "")}
 	return []c05conc{
-		{name: "three-completions", n: 2, th: 100, setup: setup, threads: [][]c05ev{
+		{name: "three-completions", n: 2, th: 100, setup: setup, bound: [2]int{1, 2}, threads: [][]c05ev{
 			{v("n1", p1, "A", false, "")}, {v("n1", p2, "A", false, "")}, {v("n1", p3, "A", false, "")}}},
-		{name: "stalled-voter-vs-two-cleanups", n: 2, th: 100, setup: setup, threads: [][]c05ev{
-			{v("n1", p1, "B", false, "")}, {v("n1", p2, "A", false, ""), v("n1", p3, "A", false, "")}, {v("n1", p5, "A", false, "")}}},
-		{name: "count-vs-completion-vs-missing", n: 2, th: 100, setup: setup, threads: [][]c05ev{
+		{name: "stalled-voter-vs-two-cleanups", n: 2, th: 100, setup: setup, bound: [2]int{-1, 2}, threads: [][]c05ev{
+			{v("n1", p1, "B", false, "")}, {v("n1", p2, "A", false, ""), v("n1", p3, "A", false, ""), v("n1", p5, "A", false, "")}}},
+		// votes parked while the suffrage was unknown: one Count() completes 33.0A and 34.0I (two cleanup cycles in a row) while a
+		// voter of 33.0I is in flight and a new stage point asks for a record
+		{name: "stalled-voter-vs-count", n: 2, th: 100, unknown: true, bound: [2]int{1, 2},
+			setup: []c05ev{v("n0", p1, "A", false, ""), v("n0", p2, "A", false, ""), v("n1", p2, "A", false, ""), v("n0", p3, "A", false, ""), v("n1", p3, "A", false, "")},
+			threads: [][]c05ev{{v("n1", p1, "B", false, "")}, {{kind: "count"}}, {v("n0", p5, "A", false, "")}}},
+		{name: "stalled-voter-vs-two-cleanups-3t", n: 2, th: 100, bound: [2]int{-1, 1},
+			setup: []c05ev{v("n0", p1, "A", false, ""), v("n0", p2, "A", false, ""), v("n0", p3, "A", false, "")},
+			threads: [][]c05ev{{v("n1", p1, "B", false, "")}, {v("n1", p2, "A", false, ""), v("n1", p3, "A", false, "")}, {v("n0", p5, "A", false, "")}}},
+		{name: "count-vs-completion-vs-missing", n: 2, th: 100, setup: setup, bound: [2]int{1, 2}, threads: [][]c05ev{
 			{{kind: "count"}}, {v("n1", p2, "A", false, ""), v("n1", p3, "A", false, "")}, {{kind: "missing", p: p1}}}},
-		{name: "ballot-voters-and-setlast", n: 2, th: 100, setup: setup[:3], threads: [][]c05ev{
+		{name: "ballot-voters-and-setlast", n: 2, th: 100, setup: setup[:3], bound: [2]int{-1, 1}, threads: [][]c05ev{
 			{v("n1", p1, "A", false, "acc:32")}, {v("n1", p2, "A", false, "init:33.0")}, {{kind: "setlast", p: p3, maj: true}, v("n1", p4, "A", false, "")}}},
-		{name: "completions-then-new-point", n: 2, th: 100, setup: setup, threads: [][]c05ev{
+		{name: "completions-then-new-point", n: 2, th: 100, setup: setup, bound: [2]int{1, 2}, threads: [][]c05ev{
 			{v("n1", p2, "A", false, ""), v("n1", p3, "A", false, "")}, {v("n1", p4, "A", false, ""), v("n1", p5, "A", false, "")}}},
+		{name: "voted-vs-two-cleanups", n: 2, th: 100, setup: setup, bound: [2]int{1, 2}, threads: [][]c05ev{
+			{{kind: "voted", p: p1}}, {v("n1", p2, "A", false, ""), v("n1", p3, "A", false, "")}}},
 	}
 }
 
@@ -256,8 +294,7 @@ func TestVerifC05Conc(t *testing.T) {
 	r := vlib.Start("C05")
 	defer r.Finish()
 	r.Rule("concurrent half: scenario = sequential setup + 2-3 threads of 1-2 calls (Vote, VoteSignFact, Count, MissingNodes, SetLastPoint) on the real Ballotbox; every interleaving within the preemption bound of the roots and the `go deferred()` goroutines; non-trivial = scenario with more than one observable outcome; states = distinct (scenario, outcome)")
-	bound := vlib.Pick(r, 1, 2)
-	r.Set("preemption_bound", bound)
+	tier := vlib.Pick(r, 0, 1)
 	cfgs := c05concScenarios()
 	r.Set("conc_scenarios_enumerated", len(cfgs))
 	fxs := map[string]*c05fx{}
@@ -270,6 +307,8 @@ func TestVerifC05Conc(t *testing.T) {
 		}
 		fx := fxs[key]
 		id := c.id()
+		bound := c.bound[tier]
+		r.Set("preemption_bound_"+c.name, bound)
 		build := func() vsched.Scenario { return c05concBuild(c, fx) }
 		if rid, rp := r.Replaying(); rp {
 			k := strings.LastIndex(rid, "#")
@@ -284,7 +323,7 @@ func TestVerifC05Conc(t *testing.T) {
 			}
 			continue
 		}
-		if r.Expired() {
+		if r.Expired() || bound < 0 {
 			continue
 		}
 		// every shard explores every scenario, each a disjoint set of first-level subtrees
@@ -303,7 +342,7 @@ func TestVerifC05Conc(t *testing.T) {
 		if res.Capped != "" {
 			r.Cap(res.Capped)
 		} else {
-			r.Min("preemption_bound_completed", int64(res.BoundCompleted))
+			r.Min("bound_completed_"+c.name, int64(res.BoundCompleted))
 		}
 		r.Max("max_points_per_execution", int64(res.MaxPoints))
 		if len(res.Outcomes) > 1 {
@@ -319,6 +358,9 @@ func TestVerifC05Conc(t *testing.T) {
 		}
 		for _, f := range res.Found {
 			r.Violation(id+"#"+vsched.ChoicesString(f.Choices), f.Fail.Sig, f.Fail.Detail+fmt.Sprintf(" (preemptions=%d)", f.Preempt), nil)
+		}
+		if sh == 0 {
+			r.Set("executions_shard0_"+c.name, res.Executions)
 		}
 		if i < 3 {
 			r.Sample(map[string]any{"scenario": id, "executions": res.Executions, "distinct_outcomes": len(res.Outcomes)})
